@@ -440,3 +440,16 @@ PROPS["C17"]["level_text"] += (" Collector side (Model/Collector, Props/C17Colle
     "proof/signature reports name the request's task and space.")
 PROPS["C17"]["assumptions"] = [a for a in PROPS["C17"]["assumptions"] if "trySlots" not in a] + [
     "Model/Collector.lean transcribes LocalCollector.onRequestQualities/trySlots/reportQualities; a report still in flight when a newer qualities task arrives may be delivered (the code selects between the cancelled context and the hand-over): not excluded by the property, tolerated by the harness for 400 ms"]
+
+# byte-stream side of C17 ("unmodified, in order per connection") and of C16 ("decoding arbitrary bytes received from a
+# peer ... never hangs or exhausts memory"): the receive loop of a connection as a chunked receiver
+for _pid in ("C17", "C16"):
+    PROPS[_pid]["props"].append("MassVerif.Props.C17Stream")
+    PROPS[_pid]["drivers_mod"].append("MassVerif.Driver.Stream")
+    PROPS[_pid]["harnesses"].append({"name": "stream", "pkg": "harness/stream", "driver": "MassVerif/Driver/Stream.lean",
+                                     "quick": {"n": 300}, "thorough": {"n": 6000}, "search": {"n": 2000}})
+    PROPS[_pid]["level_text"] += (" Byte stream (Model/Stream, Props/C17Stream): the receive loop of a connection, fed the peer's "
+        "byte stream in pieces of any size, emits exactly the units the peer wrote, in order and byte for byte "
+        "(C17_stream_delivery, via C17_stream_chunking_irrelevant: pieces do not matter), a stream cut anywhere delivers a prefix "
+        "(C17_stream_cut_prefix), and an announced length beyond the limit stops the connection after the units before it "
+        "(C17_stream_oversize). Tie: a real connection.Conn over a scripted net.Conn that hands over exactly the generated pieces.")
